@@ -44,7 +44,7 @@ SORTS = [['sort'], ['sort', None, True], ['sort', 'first_of'], ['sort', 'first_o
 
 def bounds(tier):
     return {'alphabet': [None, 0, 1] if tier == 'quick' else [None, 0, 1, 2],
-            'max_len': 6 if tier == 'quick' else 7, 'operators': len(OPS) + len(SORTS)}
+            'max_len': 7 if tier == 'quick' else 8, 'operators': len(OPS) + len(SORTS)}
 
 
 def listdef(o, x):
@@ -104,7 +104,7 @@ def cases(unit):
             yield {'op': o, 'mode': 'plain', 'seq': seq}
         return
     alpha = [None, 0, 1] if tier == 'quick' else [None, 0, 1, 2]
-    n = 6 if tier == 'quick' else 7
+    n = (7 if unit['mode'] == 'api' else 6) if tier == 'quick' else (8 if unit['mode'] == 'api' else 7)
     if unit['mode'] == 'raw2' and tier == 'quick':
         n = 5
     for seq in spaces.sequences(alpha, n):
